@@ -243,6 +243,21 @@ class Check(core.CheckBase):
             which = [n for n in first if comparable(first)[n] != comparable(second).get(n)]
             found.append(self.violation('nondeterministic|%s|%s' % ('+'.join(which), cls_name),
                                         'two consecutive renderings of the same %s differ' % cls_name, case))
+        elif hasattr(obj, 'compose'):
+            # the report of an object does not depend on whether it has been composed (or fingerprinted) in between
+            try:
+                obj.compose()
+                for probe in ('key_tag', 'fingerprints', 'key_bytes'):
+                    if isinstance(getattr(type(obj), probe, None), property):
+                        getattr(obj, probe)
+            except Exception:  # pylint: disable=broad-except
+                pass
+            third = render(obj)
+            self.stats['renderings_after_compose'] += 1
+            if comparable(first) != comparable(third):
+                which = [n for n in first if comparable(first)[n] != comparable(third).get(n)]
+                found.append(self.violation('changes-after-compose|%s|%s' % ('+'.join(which), cls_name),
+                                            'the rendering of a %s changes once it has been composed' % cls_name, case))
         return first
 
     def judge_object(self, case):
